@@ -1,51 +1,7 @@
-'''C04 selection: M (MC_C04), R (TLC cases on every layout), V (random frames/keys validated by Trace_C04).'''
-import json
+'''C04 selection: M (MC_C04), R (TLC cases on every layout), V (random frames/keys validated by Trace_Ops).'''
+from . import common as C, ops
 
-import static_frame as sf
-
-from .. import core, project as P
-from . import common as C
-
-
-def run_case(cs, layout=None):
-    op = cs['op']
-    if op.startswith('f_'):
-        f = P.build_frame(cs['f'], layout)
-        if op == 'f_iloc':
-            return C.execute(lambda: f.iloc[C.py_iloc_key(cs['rk']), C.py_iloc_key(cs['ck'])])
-        if op == 'f_loc':
-            return C.execute(lambda: f.loc[C.py_loc_key(cs['rk']), C.py_loc_key(cs['ck'])])
-        if op == 'f_getitem':
-            return C.execute(lambda: f[C.py_loc_key(cs['ck'])])
-        if op == 'f_bloc':
-            import numpy as np
-            return C.execute(lambda: f.bloc[np.array(cs['mask'], dtype=bool).reshape(f.shape)])
-    else:
-        s = P.build_series(cs['s'])
-        if op == 's_iloc':
-            return C.execute(lambda: s.iloc[C.py_iloc_key(cs['rk'])])
-        if op == 's_loc':
-            return C.execute(lambda: s.loc[C.py_loc_key(cs['rk'])])
-        if op == 's_getitem':
-            return C.execute(lambda: s[C.py_loc_key(cs['rk'])])
-    raise ValueError(op)
-
-
-def normalise(res, cs=None):
-    '''Observables the property speaks about.  bloc: the (row label, column label) -> value association;
-    the order in which the as-built code emits the pairs follows the block layout (recorded under C03), so the
-    pairs are put in row-major order here.'''
-    if cs is not None and cs['op'] == 'f_bloc' and res.get('k') == 'series':
-        ri = {json.dumps(l): i for i, l in enumerate(cs['f']['index'])}
-        ci = {json.dumps(l): i for i, l in enumerate(cs['f']['columns'])}
-        try:
-            order = sorted(range(len(res['index'])), key=lambda i: (ri[json.dumps(res['index'][i][1][0])], ci[json.dumps(res['index'][i][1][1])]))
-        except (KeyError, IndexError, TypeError):
-            return res
-        res = dict(res)
-        res['index'] = [res['index'][i] for i in order]
-        res['vals'] = [res['vals'][i] for i in order]
-    return res
+run_case = ops.run_case
 
 
 def gen_case(rng):
@@ -72,42 +28,10 @@ def gen_case(rng):
 
 def main(ctx):
     quick = ctx.tier == 'quick'
-    # ---- M + R: TLC enumerates the small-scope cases with their expected results
     r = ctx.model_check('MC_C04', 'MC_C04_quick.cfg' if quick else 'MC_C04_thorough.cfg', dump=True)
     ctx.model_check('MC_C04', 'MC_C04_neg.cfg', expect_violation='SliceAsBuiltIsRequired', coverage=False)
     if r.ok and r.dump:
-        n = 0
-        for cs, exp in core.cases_from_dump(r.dump):
-            n += 1
-            if cs['op'].startswith('f_'):
-                lays = P.layouts_for([c['dt'] for c in cs['f']['cols']])
-                if quick and len(lays) > 3:
-                    lays = ctx.rng.sample(lays, 3)
-            else:
-                lays = [None]
-            for lay in lays:
-                act = normalise(run_case(cs, lay), cs)
-                ctx.replayed += 1
-                if act != exp:
-                    ctx.violation('R', 'selection differs from the specification', case={'cs': cs, 'layout': lay}, expected=exp, actual=act)
-            if n <= 2:
-                ctx.sample({'leg': 'R', 'case': cs, 'expected': exp})
+        ops.replay_dump(ctx, r.dump, violation_what='selection differs from the specification')
         ctx.exhaustive = True
-    # ---- V: random frames, layouts and keys, checked by TLC against the column-level specification
-    nev = 3000 if quick else 60000
-    events = []
-    meta = {}
-    for i in range(nev):
-        cs, lay = gen_case(ctx.rng)
-        res = normalise(run_case(cs, lay), cs)
-        events.append({'id': i, 'cs': cs, 'res': res})
-        meta[i] = lay
-        ctx.count('V_' + cs['op'])
-        ctx.count('V_result_' + res['k'])
-    rej = ctx.validate_events('Trace_C04', 'Trace.cfg', events)
-    for ev in events:
-        if ev['id'] in rej:
-            ctx.violation('V', 'recorded selection is not a step of the specification', case={'cs': ev['cs'], 'layout': meta[ev['id']]},
-                          actual=ev['res'], clause=rej[ev['id']][0], expected=rej[ev['id']][1])
-    ctx.sample({'leg': 'V', 'event': events[0]})
-    return ctx.finish(rule='R: every (frame, row key, column key) case of MC_C04 on every block layout; V: seeded random frames (<=4x5, 5 dtype kinds, 5 index kinds, random layout) x random iloc/loc/getitem/bloc keys; distinct = distinct cases')
+    ops.validate_random(ctx, gen_case, 3000 if quick else 60000, what='recorded selection is not a step of the specification')
+    return ctx.finish(rule='R: every (frame, row key, column key) case of MC_C04 on every block layout (quick: 3 sampled layouts per case); V: seeded random frames (<=4x5, 5 dtype kinds, 5 index kinds, random layout) x random iloc/loc/getitem/bloc keys')
